@@ -23,7 +23,7 @@ PI = V.PI
 def make_registry():
     reg = registry()
     tm.install(reg)
-    for c in CONTRACTS:
+    for c in CONTRACTS + ASSUMED_CONTRACTS:
         reg.add_contract(c)
     reg.abstract_classes.add(f"{IU}:UnionFindPhase")
     return reg
@@ -303,7 +303,127 @@ def wp_ensures(s):
 
 C_WRAP = Contract(f"{IU}:_wrap_to_pi", setup=wp_setup, ensures=wp_ensures)
 
-CONTRACTS = [C_INIT, C_FIND, C_UNION, C_FINAL, C_FINDWRAP, C_WRAP]
+# ---- the reliability-sorting driver: edge loop over union-find, final offsets, output formula
+# Ghost: kk(v) = true wrap count of pixel v (phi_true = psi + 2 pi kk); ADJ(p, q) = "(p, q) is an edge the code may process"
+# (4-neighbour pair, both valid; periodic if wrap_around) - its concrete meaning is validated by the bounded _build_edges oracle.
+KK = z3.Function("kk", z3.IntSort(), z3.IntSort())
+ADJ = z3.Function("adj", z3.IntSort(), z3.IntSort(), z3.BoolSort())
+
+
+def drv_setup(ctx):
+    H, W = ctx.fresh("H", "int"), ctx.fresh("W", "int")
+    ctx.assume(AND(H.t >= 1, W.t >= 1))
+    phi = ctx.fresh_arr("psi", (H, W), "real")
+    phi.as_type = __import__("torch").Tensor
+    has_mask = ctx.branch(ctx.fresh("has_mask", "bool").t)
+    mask = ctx.fresh_arr("mask", (H, W), "bool") if has_mask else None
+    wrap = ctx.fresh("wrap_around", "bool")
+    return NS(phi=phi, mask=mask, wrap_around=wrap, H=H, W=W)
+
+
+def psi_flat(s, v):
+    rm = V.rowmajor((s.H, s.W))
+    return lift(s.phi.fn(rm.unr[0](v), rm.unr[1](v)))
+
+
+def drv_requires(s):
+    """Edge consistency: on every processable edge the code's wrap increment equals the true wrap-count difference.
+    Lemma `itoh` proves this from the property's hypothesis (neighbouring true phases differ by < pi; input wrapped into a
+    2 pi interval or already smooth); keeping the pi-products out of the loop obligations keeps them linear."""
+    p, q = I("p"), I("q")
+    N = lift(s.H) * lift(s.W)
+    return [("find_wrap-on-edges=true-wrap-difference", forall([p, q], implies(AND(p >= 0, p < N, q >= 0, q < N, ADJ(p, q)),
+                                                                               fw_spec(psi_flat(s, p), psi_flat(s, q)) == KK(p) - KK(q))))]
+
+
+def be_result(ctx, s):
+    E = ctx.fresh("n_edges", "int")
+    ctx.assume(E.t >= 0)
+    i1, i2, inc = ctx.fresh_arr("i1", (E,), "int"), ctx.fresh_arr("i2", (E,), "int"), ctx.fresh_arr("inc", (E,), "int")
+    for a in (i1, i2, inc):
+        a.as_type = __import__("torch").Tensor
+    return (i1, i2, inc)
+
+
+def be_ensures(s):
+    i1, i2, inc = s.result
+    j = I("j")
+    H, W = s.phi.shape
+    N = lift(H) * lift(W)
+    E = lift(i1.sym_len())
+    inj = AND(j >= 0, j < E)
+    a, b = lift(i1.fn(j)), lift(i2.fn(j))
+    rm = V.rowmajor((H, W))
+    pf = lambda v: lift(s.phi.fn(rm.unr[0](v), rm.unr[1](v)))
+    return [("same-length", AND(lift(i2.sym_len()) == E, lift(inc.sym_len()) == E)),
+            ("endpoints-in-range", forall(j, implies(inj, AND(a >= 0, a < N, b >= 0, b < N)))),
+            ("edges-are-adjacent-valid-pairs", forall(j, implies(inj, ADJ(a, b)))),
+            ("inc=find_wrap(phi[i1],phi[i2])-of-the-GIVEN-phase", forall(j, implies(inj, lift(inc.fn(j)) == fw_spec(pf(a), pf(b)))))]
+
+
+C_BUILD = Contract(f"{IU}:_build_edges", setup=None, ensures=be_ensures, result=be_result,
+                   note="ASSUMED contract (validated on small grids by the bounded _build_edges oracle, not proved)")
+C_REL = Contract(f"{IU}:_pixel_reliability", setup=None,
+                 result=lambda ctx, s: ctx.fresh_arr("reliability", s.phi.shape, "real"),
+                 note="only orders the edges; the result does not depend on it")
+
+
+def drv_loop_inv(s):
+    uf = s.uf
+    g = F(uf, "$g")
+    n = lift(F(uf, "$n"))
+    v, j = I("v"), I("j")
+    s.ctx.ghost["uf"] = uf
+    s.ctx.ghost["edges"] = (s.i1, s.i2, s.inc)
+    return ([("Inv:" + a, b) for a, b in uf_inv(uf)] +
+            [("n=H*W", n == lift(s.N)),
+             ("potential=k-k(root)", forall(v, implies(AND(v >= 0, v < n), g.P(v) == z3.ToReal(KK(v) - KK(g.R(v)))))),
+             ("processed-edges-merged", forall(j, implies(AND(j >= 0, j < lift(s.k)), g.R(lift(s.i1.fn(j))) == g.R(lift(s.i2.fn(j))))))])
+
+
+def drv_havoc(s):
+    # the loop body mutates the union-find through `union` (by contract): havoc its state for the arbitrary iteration
+    uf = s.uf
+    n = F(uf, "$n")
+    ctx = s.ctx
+    uf.fields["parent"] = ctx.fresh_arr("parent", (n,), "int")
+    uf.fields["offset"] = ctx.fresh_arr("offset", (n,), "real")
+    uf.fields["rank"] = ctx.fresh_arr("rank", (n,), "int")
+    uf.fields["$g"] = ghost(ctx, "l")
+
+
+def drv_ensures(s):
+    uf = s.ctx.ghost["uf"]
+    i1, i2, inc = s.ctx.ghost["edges"]
+    g = F(uf, "$g")
+    out = s.result
+    H, W = lift(s.H), lift(s.W)
+    N = H * W
+    u, v, j, m = I("u"), I("v"), I("j"), I("m")
+    rm = V.rowmajor((s.H, s.W))
+    of = lambda t: lift(out.fn(rm.unr[0](t), rm.unr[1](t)))
+    phit = lambda t: psi_flat(s, t) + 2 * PI * z3.ToReal(KK(t))
+    inr = lambda t: AND(t >= 0, t < N)
+    c = Rl("c")
+    return [
+        ("shape", AND(lift(out.shape[0]) == H, lift(out.shape[1]) == W)),
+        ("same-root=>out-phi_true-is-the-same-constant", forall([u, v], implies(AND(inr(u), inr(v), g.R(u) == g.R(v)), of(u) - phit(u) == of(v) - phit(v)))),
+        ("every-edge-is-merged", forall(j, implies(AND(j >= 0, j < lift(i1.sym_len())), g.R(lift(i1.fn(j))) == g.R(lift(i2.fn(j)))))),
+        # "one constant": the residual is the same for every pair of pixels (witness-free form of `exists c`)
+        ("out-input-in-2pi*Z+one-constant", forall([u, v], implies(AND(inr(u), inr(v)),
+            of(u) - psi_flat(s, u) - 2 * PI * z3.ToReal(g.Pi(u)) == of(v) - psi_flat(s, v) - 2 * PI * z3.ToReal(g.Pi(v))))),
+        ("no-wraps-needed=>unchanged-up-to-constant", implies(forall(v, implies(inr(v), KK(v) == 0)),
+            forall([u, v], implies(AND(inr(u), inr(v)), of(u) - psi_flat(s, u) == of(v) - psi_flat(s, v))))),
+    ]
+
+
+C_DRIVER = Contract(
+    f"{IU}:_unwrap_phase_2d_torch_reliability_sorting", setup=drv_setup, requires=drv_requires, ensures=drv_ensures,
+    loops={0: LoopSpec(inv=drv_loop_inv, havoc={"uf": drv_havoc})},
+)
+
+CONTRACTS = [C_INIT, C_FIND, C_UNION, C_FINAL, C_FINDWRAP, C_WRAP, C_DRIVER]
+ASSUMED_CONTRACTS = [C_BUILD, C_REL]
 
 # ------------------------------------------------------------------------------------------------
 # lemmas
